@@ -127,6 +127,8 @@ def run(ctx):
     for a in ALGS:
         for _ in range(n * (2 if a == "Auer" else 3 if a == "PaVeBa-real" else 1)):
             recs.append(scenarios.run_spec(scenarios.make_spec(ctx.rng, a, valid=True, small=ctx.quick), max_steps=40))
+    for _ in range(16 if ctx.quick else 150):
+        recs.append(scenarios.run_spec(scenarios.auer_holdback(ctx.rng), max_steps=60))
     try:
         recs.append(run_probe(ctx))
     except Exception:
